@@ -50,6 +50,15 @@ def main():
                 print('  not self-equivalent (dropped): %s: %s' % (fn, why))
                 continue
             out[fn] = s
+        # own-body summaries of the library functions (calls of workspace functions kept as events), for ownership.py
+        shallow = {}
+        for fn, b in sorted(ownership.library_bodies(fx)):
+            if fn in bad:
+                continue
+            s = equiv.summarize(fx, fn, shallow=True)
+            if s is not None and equiv.equivalent(json.loads(json.dumps(s)), s)[0]:
+                shallow[fn] = s
+        out['#shallow'] = shallow
         out['#meta'] = rename.meta_of(fx)
         with gzip.open(equiv.ref_file(cfg), 'wt') as fh:
             json.dump(out, fh, separators=(',', ':'))
